@@ -1,28 +1,10 @@
-(* Non-vacuity of the refinement theorem: the hypotheses on the user-code semantics hold for the
-   concrete world of Concrete.v, and a concrete program (let names, a wrapper, a hoisted block
-   operand, different depths, try + handler) meets `wf`, is accepted by `gen` and by `prepare`. *)
+(* Non-vacuity of the refinement theorem: a concrete program (let names, a wrapper, a hoisted block
+   operand, different depths, try + handler) meets `wf`, is accepted by `gen` and by `prepare`, and the
+   theorem instantiates for the concrete world of Concrete.v (no hypothesis on the user-code semantics
+   is left to discharge). *)
 From Coq Require Import ZArith Lia.
 From Join Require Import Tok Names Ast Ir Gen Comp Std Denote Spec Concrete NamesInj CompLaws Render
      RefineBase RefineChain RefineProg RefineSteps RefineTop.
-
-Ltac leaves_tac :=
-  repeat match goal with
-         | |- leaves _ (Ret _) => constructor; exact I
-         | |- leaves _ (Panic _) => apply L_Panic
-         | |- leaves _ (bind _ _) => apply leaves_bind_any; intros
-         | |- leaves _ (if ?b then _ else _) => destruct b
-         | |- leaves _ (match ?x with _ => _ end) => destruct x
-         end.
-
-Lemma c_msem_nc m tf r ds : leaves not_clo (c_msem m tf r ds).
-Proof. unfold c_msem. leaves_tac. Qed.
-Lemma c_dotsem_nc o sn r : leaves not_clo (c_dotsem o sn r).
-Proof. unfold c_dotsem. leaves_tac. Qed.
-Lemma c_callsem_nc f ds : leaves not_clo (c_callsem f ds).
-Proof.
-  unfold c_callsem. apply leaves_bind_any; intros vs.
-  apply L_Vis; intros v. constructor; exact I.
-Qed.
 
 (* try_join!{ let a = x0 |> >>> |> {blk} <<< ~=> g, y0 ~|> h ~|> i, map => hd } *)
 Definition ex_inp : input :=
@@ -64,7 +46,7 @@ Example ex_refines : forall cfg, In cfg ex_cfgs ->
     den (user_names ex_inp) c_msem c_dotsem c_callsem c_await e empty_env = spec c_msem c_dotsem c_callsem c_await sp.
 Proof.
   intros cfg H. destruct (ex_gen_ok cfg H) as (e & sp & Hg & Hp). exists e, sp. repeat split; auto.
-  apply (gen_refines_spec c_msem c_dotsem c_callsem c_await c_msem_nc c_dotsem_nc c_callsem_nc cfg ex_inp e sp ex_wf Hg Hp).
+  apply (gen_refines_spec c_msem c_dotsem c_callsem c_await cfg ex_inp e sp ex_wf Hg Hp).
 Qed.
 
 Print Assumptions ex_refines.
